@@ -13,7 +13,7 @@ import vlib
 
 LEVEL = "model_checking"
 
-DEFECTS = ["SharedMatchSet", "EmptyServerName", "IfGivenForRequire", "PlainWhenNotReady", "SkipVerifyLeftOn", "StaleOnEqualHash", "InspectorLagsUpdate", "PoolCachedByPath"]
+DEFECTS = ["SharedMatchSet", "EmptyServerName", "IfGivenForRequire", "PlainWhenNotReady", "SkipVerifyLeftOn", "StaleOnEqualHash", "InspectorLagsUpdate", "PoolCachedByPath", "RotationBuildsOutsideLock"]
 
 
 def mismatches(txt):
@@ -50,6 +50,19 @@ def run(ctx):
     ncases = r["cases"]
     if ncases == 0:
         raise vlib.Inconclusive("TLC emitted no cases")
+    # the race cases (SDS rotation || config update) once per gate-level schedule: TLC enumerates the interleavings of
+    # the two writers with the lock ignored, the real code decides which of them are feasible
+    raw_sched = os.path.join(ctx.tmp, "sched_raw.jsonl")
+    rs = vlib.run_tlc(ctx, "tls", "TLSSelectMC", "TLSSelect_sched.cfg", workers=1, cases_to=raw_sched, timeout=300)
+    ctx.add_tlc(rs)
+    sched_lines = sorted(set(open(raw_sched).read().splitlines()))
+    nsched = len(set(json.dumps(json.loads(ln)["sched"]) for ln in sched_lines))
+    if nsched != 6:
+        raise vlib.Inconclusive("expected the 6 interleavings of two 2-segment writers, TLC enumerated %d" % nsched)
+    with open(cases, "a") as fh:
+        for ln in sched_lines:
+            fh.write(ln + "\n")
+    ncases += len(sched_lines)
     # every named way the design can go wrong must be rejected by the invariants (non-vacuity)
     for d in DEFECTS:
         rd = vlib.run_tlc(ctx, "tls", "TLSSelectMC", "TLSSelect_defect_%s.cfg" % d, workers=1, expect_ok=False, timeout=300)
@@ -67,11 +80,14 @@ def run(ctx):
     with open(cases) as fh:
         for ln in fh:
             c = json.loads(ln)
+            sched = None
+            if "c" in c:                     # a race case wrapped with its schedule
+                c, sched = c["c"], c["sched"]
             n_direct += runs(c)
             if c["side"] == "up":
                 ups.append((c, ln))        # e2e: cluster TLS updates go through the running cluster manager
                 continue
-            k = json.dumps([c["ctxs"], c["insp"], c["upds"]], sort_keys=True)
+            k = json.dumps([c["ctxs"], c["insp"], c["upds"], sched], sort_keys=True)
             if k not in groups:
                 groups[k] = []
                 order.append(k)
@@ -118,6 +134,14 @@ def run(ctx):
         ctx.cov["traces_validated_against_impl"] += sum(1 for e in evs if e["ev"] in ("mgr", "up"))
         ctx.cov["evaluations"] += nreal
         ctx.cov.setdefault("trace_events", {})[part] = len(evs)
+        followed = {}
+        for e in evs:
+            u = e if e["ev"] == "upd" else (e["upds"][-1] if e["ev"] == "up" and e.get("upds") else None)
+            if u and "sched" in u and u["path"].startswith("config-update"):
+                key = "".join(u["sched"])
+                f = followed.setdefault(key, {"followed": 0, "degraded": 0})
+                f["followed" if u["followed"] else "degraded"] += 1
+        ctx.cov.setdefault("race_schedules", {})[part] = followed
         ctx.cov.setdefault("updates_pushed", {})[part] = {
             path: sum(1 for e in evs if e["ev"] == "upd" and e["path"] == path) +
                   sum(1 for e in evs if e["ev"] == "up" for u in e.get("upds", []) if u["path"] == path)
@@ -182,4 +206,7 @@ def run(ctx):
         "MOSN side runs with GODEBUG=tls13=1 so that both handshake_server.go (1.2) and handshake_server_tls13.go (1.3) are exercised",
         "ECDSA P-256 certificates only; loopback TCP; e2e part: tcp_proxy listeners of one in-process MOSN (handler.go OnAccept, connection.go tryConnect)",
         "SDS contexts get their secrets through an injected SdsClient (mtls.VerifSetSdsClientFunc); seed chooses static vs SDS and CN/SAN layout",
+        "races: SDS rotation and config update of one SDS context in two goroutines, each of the 6 gate-level schedules forced through "
+        "mtls.RegisterTlsContextCallback (parks a writer between 'context built' and 'context stored'); a step the code does not allow "
+        "(writer blocked on a lock) degrades after 80 ms and is counted in coverage.race_schedules, the resulting policy is judged either way",
     ]
